@@ -27,7 +27,7 @@ pub const INFO: PropInfo = PropInfo {
         "payload objects carry no duplicate keys",
         "HMAC is implemented independently (ipad/opad construction) on top of the sha2 crate's compression functions; SHA-2 itself is trusted and cross-checked against Python's hashlib once per batch",
     ],
-    expected_probes: &["c12.issued_token_admitted", "c12.expired_refused", "c12.exp_boundary", "c12.nbf_boundary", "c12.clock_jump_backwards", "c12.mutation_refused", "c12.other_key_refused", "c12.alg_none_refused", "c12.four_parts", "c12.fractional_time_claim", "c12.previous_payload_not_leaked", "c12.options_bypass", "c12.custom_token_source", "c12.decoy_in_default_place", "c12.same_token_again_other_verdict", "c12.two_configurations", "c12.token_of_the_other_realm_refused"],
+    expected_probes: &["c12.issued_token_admitted", "c12.expired_refused", "c12.exp_boundary", "c12.nbf_boundary", "c12.clock_jump_backwards", "c12.mutation_refused", "c12.other_key_refused", "c12.alg_none_refused", "c12.four_parts", "c12.fractional_time_claim", "c12.previous_payload_not_leaked", "c12.options_bypass", "c12.custom_token_source", "c12.decoy_in_default_place", "c12.same_token_again_other_verdict", "c12.two_configurations", "c12.token_of_the_other_realm_refused", "c12.stacked_configurations", "c12.stacked_outer_admits_inner_refuses"],
 };
 
 #[derive(Clone, Debug, Serialize, Deserialize)]
@@ -45,6 +45,9 @@ pub struct Req {
     /// which protected realm the request goes to: 0 `/api/me`, 1 `/api2/me` (second configuration, if any)
     #[serde(default)]
     pub realm: u8,
+    /// stacked configuration only: the raw `X-Token` value for the inner fang (None = header absent)
+    #[serde(default)]
+    pub inner: Option<String>,
 }
 #[derive(Clone, Debug, Serialize, Deserialize)]
 pub struct Scenario {
@@ -59,6 +62,10 @@ pub struct Scenario {
     /// a second JWT configuration (same or another algorithm, another secret) guarding `/api2/me` in the same application
     #[serde(default)]
     pub second: Option<SecondCfg>,
+    /// the second configuration does not guard a route of its own but sits INSIDE the first one on the same route
+    /// (outer fang: `Authorization: Bearer`, inner fang: `X-Token`, same payload type): the handler runs iff both admit
+    #[serde(default)]
+    pub stacked: bool,
 }
 #[derive(Clone, Debug, Serialize, Deserialize)]
 pub struct SecondCfg {
@@ -362,7 +369,7 @@ fn gen_req(sc_alg: u16, secret: &str, now_base: u64, issue: &dyn Fn(&Value) -> S
         _ => ("missing".into(), None),
     };
     let method = if t::chance(1, 12) { "OPTIONS" } else if t::chance(1, 4) { "POST" } else { "GET" };
-    Req { method: method.into(), authorization: auth, kind, now, reconnect_before: t::chance(1, 6), decoy: None, realm: 0 }
+    Req { method: method.into(), authorization: auth, kind, now, reconnect_before: t::chance(1, 6), decoy: None, realm: 0, inner: None }
 }
 
 fn make_jwt(alg: u16, secret: &str) -> JWT<Value> {
@@ -457,7 +464,27 @@ pub fn generate(_cfg: &RunCfg, _out: &mut Outcome) -> Scenario {
         }
     }
     let placement = if second.is_some() && placement == 0 { 1 } else { placement };
-    Scenario { alg, secret, placement, reqs, token_source, second }
+    let stacked = second.is_some() && t::chance(1, 3);
+    let token_source = if stacked { 0 } else { token_source };
+    if let (true, Some(s2)) = (stacked, &second) {
+        for r in reqs.iter_mut() {
+            // the outer token is one of the first configuration (whatever kind was generated for it) ...
+            if r.kind.starts_with("other-realm:") {
+                *r = gen_req(alg, &secret, r.now, &issue);
+            }
+            r.realm = 0;
+            r.decoy = None;
+            // ... the inner one is generated for the second configuration, valid more often than not
+            let inner = if t::chance(1, 2) {
+                let v: Value = json!({"sub": "inner", "n": t::range(0, 1000)});
+                Some(issue2(&v))
+            } else {
+                gen_req(s2.alg, &s2.secret, r.now, &issue2).authorization.map(|a| a.strip_prefix("Bearer ").unwrap_or(&a).trim_matches([' ', '\t']).to_string())
+            };
+            r.inner = inner.filter(|x| !x.is_empty());
+        }
+    }
+    Scenario { alg, secret, placement, reqs, token_source, second, stacked }
 }
 
 pub fn run(cfg: &RunCfg, direct: Option<&serde_json::Value>) -> Outcome {
@@ -513,7 +540,11 @@ fn execute(sc: &Scenario, out: &mut Outcome) {
             _ => j,
         }
     });
-    let app = match (sc.placement, jwt2) {
+    let app = match (if sc.stacked { 9 } else { sc.placement }, jwt2) {
+        (9, Some(j2)) => {
+            out.probe("c12.stacked_configurations");
+            Ohkami::new((jwt, "/api".By(Ohkami::new((j2.get_token_by(from_x_token), "/me".GET(h).POST(h))))))
+        }
         (0, _) => Ohkami::new((jwt, "/api/me".GET(h).POST(h))),
         (1, None) => Ohkami::new(("/open".GET(|| async { "open" }), "/api".By(Ohkami::new((jwt, "/me".GET(h).POST(h)))))),
         (_, None) => Ohkami::new(("/open".GET(|| async { "open" }), "/api/me".GET((jwt.clone(), h)).POST((jwt, h)))),
@@ -548,7 +579,10 @@ fn execute(sc: &Scenario, out: &mut Outcome) {
                 w.count("fault.clock_jump");
             });
             let cl = c.as_mut().unwrap();
-            let (auth, _) = wire(token_source, r);
+            let (mut auth, _) = wire(token_source, r);
+            if let Some(x) = &r.inner {
+                auth.push_str(&format!("X-Token: {x}\r\n"));
+            }
             cl.send(format!("{} {} HTTP/1.1\r\nHost: s\r\n{auth}\r\n", r.method, if r.realm == 1 { "/api2/me" } else { "/api/me" }).as_bytes(), 0);
             let resp = cl.recv(false, DEFAULT_TIMEOUT).await;
             let ok = resp.is_ok();
@@ -596,6 +630,24 @@ fn execute(sc: &Scenario, out: &mut Outcome) {
             }
             Some(tk) => judge_token(r_alg, r_secret, tk, r.now),
             None => Judgement::Refuse("no token where the configuration looks"),
+        };
+        // stacked: the inner configuration decides as well, and its payload is what the handler observes
+        let j = if sc.stacked {
+            let inner_j = match (&sc.second, &r.inner) {
+                (Some(s2), Some(x)) => judge_token(s2.alg, &s2.secret, x, r.now),
+                _ => Judgement::Refuse("no inner token"),
+            };
+            if matches!(j, Judgement::Admit(_)) && matches!(inner_j, Judgement::Refuse(_)) {
+                out.probe("c12.stacked_outer_admits_inner_refuses");
+            }
+            match (j, inner_j) {
+                (Judgement::Refuse(w), _) => Judgement::Refuse(w),
+                (_, Judgement::Refuse(w)) => Judgement::Refuse(w),
+                (Judgement::Open, _) | (_, Judgement::Open) => Judgement::Open,
+                (Judgement::Admit(_), Judgement::Admit(p)) => Judgement::Admit(p),
+            }
+        } else {
+            j
         };
         if sc.token_source != 0 {
             out.probe("c12.custom_token_source");
